@@ -359,10 +359,64 @@ def callee_matches(t, *pats):
     return False
 
 
+def _load_anchors():
+    import os
+    tab = os.path.join(os.path.dirname(os.path.dirname(os.path.abspath(__file__))), "tables", "anchors.json")
+    if not os.path.exists(tab):
+        return {}
+    with open(tab) as fh:
+        return json.load(fh)
+
+
 class Facts:
-    def __init__(self, path):
+    def __init__(self, path, canonicalize=True):
         with open(path) as fh:
-            self.raw = json.load(fh)
+            text = fh.read()
+        self.raw = json.loads(text)
+        self.renames = {}
+        if canonicalize:
+            self._init_from_raw()
+            ren = self._rename_map()
+            if ren:
+                # a private function the rules know by name was renamed or moved: give it its pinned name back in the fact base
+                for old, new in sorted(ren.items(), key=lambda kv: -len(kv[0])):
+                    text = text.replace(json.dumps(old)[:-1], json.dumps(new)[:-1])
+                self.raw = json.loads(text)
+                for f in self.raw["fns"]:
+                    if f["path"] in ren.values() and f.get("name"):
+                        f["name"] = f["path"].split("::")[-1]
+                self.renames = ren
+        self._init_from_raw()
+
+    def _rename_map(self):
+        anchors = _load_anchors()
+        if not anchors:
+            return {}
+        have = {f.path for f in self.fns}
+        ren = {}
+        taken = set()
+        for name, wants in anchors.items():
+            for want in wants:
+                if want.get("path") in have:
+                    continue
+                cands = []
+                for f in self.fns:
+                    if f.kind == "Closure" or f.impl_trait or f.path in taken:
+                        continue
+                    # a function that still carries a pinned anchor name at its pinned path is not a candidate
+                    if any(w.get("path") == f.path for ws in anchors.values() for w in ws):
+                        continue
+                    fp = self.fingerprint(f)
+                    if fp["inputs"] == want["inputs"] and fp["output"] == want["output"] and fp["impl_self"] == want["impl_self"]:
+                        a, b = set(fp["callees"]), set(want["callees"])
+                        cands.append((len(a & b) / max(1, len(a | b)), f))
+                cands.sort(key=lambda x: -x[0])
+                if cands and (len(cands) == 1 or cands[0][0] > cands[1][0] + 0.1) and cands[0][0] >= 0.3:
+                    ren[cands[0][1].path] = want["path"]
+                    taken.add(cands[0][1].path)
+        return ren
+
+    def _init_from_raw(self):
         self.features = self.raw["features"]
         self.overflow_checks = self.raw["overflow_checks"]
         self.fns = [Fn(f) for f in self.raw["fns"]]
@@ -372,6 +426,21 @@ class Facts:
         self.consts = {c["path"]: c for c in self.raw["consts"]}
         self.sigs = {s["path"]: s for s in self.raw["sigs"]}
         self._cg = None
+        self.orig = self
+        self.inlined_pairs = []
+
+    def with_inlining(self):
+        """view of the program in which unknown private helpers are inlined into their callers (E0); `.orig` is the original"""
+        import copy
+        from .inline import inline_unknown_helpers
+        repl, pairs = inline_unknown_helpers(self)
+        v = copy.copy(self)
+        v.fns = [repl.get(f.path, f) for f in self.fns]
+        v.by_path = {f.path: f for f in v.fns}
+        v._cg = None
+        v.orig = self
+        v.inlined_pairs = pairs
+        return v
 
     # ---- lookup
     def fn(self, path):
@@ -381,8 +450,53 @@ class Facts:
         r = re.compile(regex)
         return [f for f in self.fns if r.search(f.path)]
 
+    def fingerprint(self, f):
+        sig = self.sigs.get(f.path, {})
+        callees = sorted({re.sub(r"<[^<>]*>", "", re.sub(r"<[^<>]*>", "", t.get("callee") or "")).split("::")[-1]
+                          for _, t in f.calls() if t.get("callee")} - {"branch", "from_residual", "deref", "deref_mut", "from", "into"})
+        return dict(impl_self=re.sub(r"<.*", "", f.impl_self or ""), inputs=sig.get("inputs"), output=sig.get("output"), callees=callees,
+                    module=f.path.split("::")[0].lstrip("<"), path=f.path)
+
+    def resolve_renamed(self, regex):
+        """a private function the rules know by name is gone: look for the unique function with the same type signature (and the most
+        similar call profile) -- a rename or a move is not a reason to lose the anchor"""
+        import json, os
+        tab = os.path.join(os.path.dirname(os.path.dirname(os.path.abspath(__file__))), "tables", "anchors.json")
+        if not os.path.exists(tab):
+            return None
+        with open(tab) as fh:
+            anchors = json.load(fh)
+        names = [n for n in re.findall(r"[A-Za-z_][A-Za-z0-9_]*", regex) if n in anchors]
+        if not names:
+            return None
+        name = max(names, key=len)
+        best = None
+        for want in anchors[name]:
+            cands = []
+            for f in self.fns:
+                if f.kind == "Closure" or f.impl_trait:
+                    continue
+                fp = self.fingerprint(f)
+                if fp["inputs"] == want["inputs"] and fp["output"] == want["output"] and fp["impl_self"] == want["impl_self"]:
+                    a, b = set(fp["callees"]), set(want["callees"])
+                    sim = len(a & b) / max(1, len(a | b))
+                    # must not be another known anchor that still exists under its own name
+                    if f.name in anchors and f.name != name:
+                        continue
+                    cands.append((sim, f))
+            cands.sort(key=lambda x: -x[0])
+            if cands and (len(cands) == 1 or cands[0][0] > cands[1][0] + 0.15) and cands[0][0] >= 0.34:
+                best = cands[0][1]
+        return best
+
     def one(self, regex):
         fs = self.find(regex)
+        if len(fs) == 0:
+            alt = self.resolve_renamed(regex)
+            if alt is not None:
+                self.renamed = getattr(self, "renamed", {})
+                self.renamed[regex] = alt.path
+                return alt
         if len(fs) != 1:
             raise AnchorLost("expected exactly one function matching /%s/, found %d: %s" % (regex, len(fs), [f.path for f in fs][:6]))
         return fs[0]
